@@ -13,7 +13,7 @@ import json, os, re, shutil, subprocess, sys, tempfile, time, hashlib, signal
 
 ROOT = os.path.dirname(os.path.dirname(os.path.abspath(__file__)))
 SPEC = os.path.join(ROOT, "spec")
-HARNESS = os.path.join(ROOT, "harness")
+HARNESS = os.environ.get("VERIF_HARNESS") or os.path.join(ROOT, "harness")
 REPO = os.environ.get("VERIF_REPO", "/repo")
 WORK = os.path.join(ROOT, "work")
 NCPU = os.cpu_count() or 4
